@@ -396,6 +396,8 @@ static void plan_roundtrip(const char *prop, int with_rs, int with_xor, int with
             }
             explore_stripe(&pl, sh[i], ct, len, pat, NULL, pm, tmax);
         }
+        /* a payload that looks like fragment headers (the header magic at offset 59 of the blocks) */
+        if (full && !thorough) explore_stripe(&pl, sh[i], CHKSUM_CRC32, 64 * (uint64_t)sh[i].k, PAT_MAGIC, NULL, 1, -1);
         /* the same stripe while two instances of a different shape of the same back end are alive (created before / after it) */
         if (full) {
             struct shape comp = sh[i];
